@@ -38,6 +38,14 @@ def spec(tier):
                 pipes=[pipe("single", prio=3, at=0, durs=[1], mems=["mb"]), pipe("fork4", prio=2, at="ta", durs=["da", 2, 2, 2], mems=[1, "ma", 1, 1])])
     obs.append(CH(name="runs_overbook_abandon_fork", harness="rsim.runs_to_end",
                   sym=dict(cpus=I(1, 3), ram=I(2, 8), ma=I(0, 9), mb=I(0, 9), ta=I(0, 3), da=I(1, 3)), fixed=dict(cfg=cfg2, db=1), timeout=1200))
+    # priority: a suspended job is resumed and further jobs are placed in the same round
+    cfg3 = dict(algo="priority", pools=1, multi=True, duration=14,
+                pipes=[pipe("chain2", prio=3, at=0, durs=[1, 3]), pipe("chain2", prio=2, at=0, durs=[1, 2]), pipe("single", prio=1, at="ta", durs=[2]),
+                       pipe("single", prio=3, at="tb", durs=[2]), pipe("single", prio=2, at="tb", durs=[1])])
+    for (lo, hi) in ((2, 12), (13, 45)):
+        for (tlo, thi) in ((1, 3), (4, 6), (7, 8)):
+            obs.append(CH(name=f"runs_priority_resume_then_place_ram{lo}_tb{tlo}", harness="rsim.runs_to_end",
+                          sym=dict(cpus=I(1, 6), ram=I(lo, hi), ta=I(1, 3), tb=I(tlo, thi)), fixed=dict(cfg=cfg3, da=1, db=1, ma=1, mb=1), timeout=1500))
     # sub-GB pools and one CPU
     for algo, pools, oc in (("naive", 1, False), ("priority", 1, False), ("priority-pool", 2, False), ("overbook", 1, True), ("starter", 1, False)):
         for ramv in (0.25, 0.5):
